@@ -46,6 +46,12 @@ func (c CharSpec) Recipe() spg.CharRecipe {
 		Length: c.Len, Allow: spg.CTFlag(c.Allow), Require: spg.CTFlag(c.Require), Exclude: spg.CTFlag(c.Exclude),
 		AllowChars: FromCPs(c.AllowChars), ExcludeChars: FromCPs(c.ExcludeChars),
 	}
+	if (c.Len+c.Allow+len(c.AllowChars))%3 == 1 {
+		// the other way to make the same recipe: the constructor (with another length), then every field assigned
+		r = *spg.NewCharRecipe(c.Len + 2)
+		r.Length, r.Allow, r.Require, r.Exclude = c.Len, spg.CTFlag(c.Allow), spg.CTFlag(c.Require), spg.CTFlag(c.Exclude)
+		r.AllowChars, r.ExcludeChars = FromCPs(c.AllowChars), FromCPs(c.ExcludeChars)
+	}
 	if len(c.RequireSets) > 0 {
 		r.RequireSets = FromCPsList(c.RequireSets)
 	}
@@ -119,7 +125,17 @@ func (w WLSpec) Build(wl *spg.WordList) (spg.WLRecipe, *spg.WordList, error) {
 				return spg.WLRecipe{}, nil, err
 			}
 		}
-		r = spg.NewWLRecipe(w.Len, wl)
+		// (the caller may also construct with one length and set another afterwards: the recipe must honour the field)
+		switch (w.Len + len(w.Words) + len(w.Cap)) % 3 {
+		case 1:
+			r = spg.NewWLRecipe(w.Len+3, wl)
+			r.Length = w.Len
+		case 2:
+			r = spg.NewWLRecipe(1, wl)
+			r.Length = w.Len
+		default:
+			r = spg.NewWLRecipe(w.Len, wl)
+		}
 	}
 	r.Capitalize = spg.CapScheme(w.Cap)
 	r.SeparatorChar = FromCPs(w.SepChar) // also set next to a separator function, which must then win
